@@ -21,7 +21,9 @@ RULE = (
     "(accepted); adjacent non-list children swapped and non-repeatable child duplicated (etree route); list member of a "
     "non-permitted type and undeclared keyword (constructor route); the hand-tabled custom constraints - each on both routes "
     "(keyword/positional construction, Aggregate.from_etree on a harness-built tree) with minimal valid surrounding content "
-    "(thorough: also Hypothesis-generated content).  Random regime: 1-3 mutations of generated valid trees; every instance "
+    "(thorough: also Hypothesis-generated content); every obligation is evaluated twice - as first use of the class, and again "
+    "after the public class-level tables of all classes have been read and the non-concrete base classes instantiated, bases "
+    "before subclasses.  Random regime: 1-3 mutations of generated valid trees; every instance "
     "that comes back is run through an independent validator.  non-trivial = every obligation (distinct (class, constraint, "
     "route) triple) and every accepted mutated tree"
 )
@@ -339,6 +341,37 @@ def _key(ob):
     return k
 
 
+_BASES_USED = [False]
+
+
+def use_base_classes_first():
+    """A history every schema-reading or base-class-using caller produces: the public class-level tables of every class
+    are read, and the non-concrete base classes are instantiated, bases before subclasses.  Constraints are per class -
+    none of this may change what a subclass enforces."""
+    if _BASES_USED[0]:
+        return
+    _BASES_USED[0] = True
+    classes = M.all_classes_including_bases()
+    classes.sort(key=lambda c: len(c.__mro__))
+    with warnings.catch_warnings():
+        warnings.simplefilter("ignore")
+        for c in classes:
+            for prop in ("spec", "spec_no_listaggregates", "elements", "subaggregates", "unsupported", "listaggregates", "listelements", "optionalMutexes", "requiredMutexes"):
+                try:
+                    getattr(c, prop)
+                except Exception:
+                    pass
+            if not c.__name__.isupper():
+                try:
+                    c()
+                except Exception:
+                    pass
+                try:
+                    c(**{k: M.untag(M.minimal_scalar(t)) for k, kind, t in M.decl(c) if kind == "elem" and t.required})
+                except Exception:
+                    pass
+
+
 def check_case(case):
     H.setup_path()
     from ofxtools.models.base import Aggregate
@@ -347,6 +380,10 @@ def check_case(case):
         return check_random(case)
     ob = case["ob"]
     base = case.get("base")
+    if case.get("after_bases"):
+        use_base_classes_first()
+        case = {k: v for k, v in case.items() if k != "after_bases"}
+        return [(k + "/after-base-classes-were-used", d) for k, d in check_case(case)]
     try:
         desc, tree, expect = build_violation(ob, base)
     except H.HarnessError:
@@ -456,13 +493,16 @@ def _enum_worker(job):
     names = job
     s = H.Stats()
     U = M.universe()
-    for name in names:
-        for ob in obligations(U[name]):
-            case = {"ob": ob}
-            s.case(case, nontrivial=True, labels=["obligation:" + ob["kind"]])
-            for k, d in check_case(case):
-                s.fail(k, case, d)
-        s.label("classes covered")
+    for after in (False, True):
+        # second pass: the same obligations after the base classes have been read and used (constraints are per class)
+        for name in names:
+            for ob in obligations(U[name]):
+                case = {"ob": ob, "after_bases": True} if after else {"ob": ob}
+                s.case(case, nontrivial=True, labels=["obligation:" + ob["kind"]] + (["after base classes were used"] if after else []))
+                for k, d in check_case(case):
+                    s.fail(k, case, d)
+            if not after:
+                s.label("classes covered")
     return s
 
 
